@@ -841,6 +841,35 @@ class C05(ThreadCheck):
     categories = ['ids']
     kinds = ('id', 'id', 'epoch')
 
+    def dynamic_part(self):
+        res = super().dynamic_part()
+        # static-initialisation probe (plain build, no shim): a thread that obtained its ID inside a global constructor keeps
+        # it for itself after all static initialisers have run (the reservation table must not be re-initialised dynamically)
+        try:
+            exe = common.build_harness('early', nthread=8)
+            out = subprocess.run([exe], capture_output=True, text=True, timeout=60).stdout
+            m = re.search(r'EARLY stable=(\d) dup=(\d) holders=(\d+) id=(\d+)', out)
+            self.cov['static_initialisation_probe'] = out.strip()
+            if m and (m.group(2) == '1' or m.group(1) == '0'):
+                res['failures'].insert(0, {
+                    'property': self.pid,
+                    'msg': 'ids: the main thread obtained ID %s inside a global constructor; after static initialisation %s other '
+                           'running thread(s) hold IDs and one of them holds the same ID (the reservation was wiped by a dynamic '
+                           'initialiser of the table)' % (m.group(4), m.group(3)) if m.group(2) == '1' else
+                           'ids: GetThreadID returned another ID after static initialisation than inside a global constructor',
+                    'case': 'harness/hx_early.cpp built against the current sources without the shim: a global object with '
+                            'init_priority(101) calls IDManager::GetThreadID(); main() starts DBGROUP_MAX_THREAD_NUM threads '
+                            'that call GetThreadID() and keep their IDs',
+                    'probe_output': out.strip(),
+                    'replay_cmd': 'python3 check/run.py C05 --tier quick   (the probe is deterministic)'})
+            elif not m:
+                res['mismatches'].append({'scenario_id': 'static-initialisation-probe', 'detail': 'no result: ' + out[-300:]})
+        except FrameworkError as e:
+            res['mismatches'].append({'scenario_id': 'static-initialisation-probe', 'detail': 'does not build: ' + str(e)[-600:]})
+        except subprocess.TimeoutExpired:
+            res['mismatches'].append({'scenario_id': 'static-initialisation-probe', 'detail': 'did not finish within 60 s'})
+        return res
+
 
 class C14(ThreadCheck):
     caps = [2, 3, 6]
